@@ -188,6 +188,10 @@ func (g *Gen) Next(run *Run) Op {
 	case "C14":
 		ws = []kw{{"newalloc", 10}, {"wplock", 8}, {"commit", 16}, {"genchal", 10}, {"chalresp", 10}, {"update", 8},
 			{"finalize", 14}, {"cancel", 10}, {"rplock", 1}, {"read", 2}, {"kill", 2}, {"shutdown", 1}, {"updblobber", 3}, {"bad", 1}}
+	case "C09":
+		ws = []kw{{"newalloc", 6}, {"wplock", 5}, {"commit", 18}, {"genchal", 10}, {"chalresp", 12}, {"update", 12},
+			{"finalize", 5}, {"cancel", 4}, {"rplock", 4}, {"read", 6}, {"kill", 2}, {"shutdown", 1}, {"updblobber", 4}, {"bad", 1}, {"rpunlock", 2},
+			{"addassigner", 3}, {"freealloc", 7}}
 	case "C13":
 		ws = []kw{{"newalloc", 12}, {"wplock", 3}, {"commit", 10}, {"genchal", 5}, {"chalresp", 5}, {"update", 22},
 			{"finalize", 7}, {"cancel", 6}, {"rplock", 1}, {"read", 1}, {"kill", 5}, {"shutdown", 3}, {"updblobber", 8}, {"bad", 1}}
@@ -559,6 +563,10 @@ func (g *Gen) Next(run *Run) Op {
 			o.X |= xBadSig
 		case 2:
 			o.X |= xBadID
+		case 6, 7, 8:
+			// a marker naming the client but carrying and signed with a foreign key, counter moving on
+			o.X |= xForgeKey
+			o.N = last + r.Pick64([]int64{1, 10, 1000})
 		case 3:
 			if a != nil {
 				o.M = a.Exp - run.Now - dt + r.Pick64([]int64{0, 1})
@@ -749,6 +757,31 @@ func (g *Gen) Script(run *Run) *Op {
 			}
 			return &Op{K: "update", Dt: 5, S: a.Owner, A: l, Ad: ad + 1, Rm: rm + 1, V: r.PickU64([]uint64{0, 1e10})}
 		}
+	case "exhaust-write-pool":
+		// an allocation locked at exactly its cost, then many tiny files each billed as a full 64 KB chunk
+		switch {
+		case g.step == 0:
+			o := newAlloc()
+			o.N = r.Pick64([]int64{MB, 2 * MB, 512 * KB})
+			var cost uint64
+			bs := int64(math.Ceil(float64(o.N) / float64(o.D)))
+			for _, b := range o.Bl {
+				wp := s.Blob[b].WP
+				if wp > h.Conf.MaxWritePrice {
+					wp = h.Conf.MaxWritePrice
+				}
+				cost += uint64(float64(wp) * (float64(bs) / GB))
+			}
+			o.V = cost + uint64(r.Intn(2))
+			return o
+		case g.step <= 45:
+			l, a := firstOpen()
+			if a == nil || len(a.BAs) == 0 {
+				break
+			}
+			d := a.BAs[(g.step/8)%len(a.BAs)]
+			return &Op{K: "commit", Dt: r.Pick64([]int64{0, 1, 2}), S: d.Blobber, A: l, B: d.Blobber, C: a.Owner, N: r.Pick64([]int64{1, 100, 1000, CHUNK - 1})}
+		}
 	case "price-drop-extend":
 		switch g.step {
 		case 0:
@@ -827,7 +860,11 @@ func (g *Gen) Script(run *Run) *Op {
 			if r.Chance(1, 2) {
 				return &Op{K: "cancel", Dt: 5, S: a.Owner, A: l}
 			}
-			return &Op{K: "finalize", Dt: a.Exp - run.Now + r.Pick64([]int64{0, 1, 100}), Dr: r.Pick64([]int64{0, 10, 1000}), S: a.Owner, A: l}
+			fin := a.Owner
+			if r.Chance(1, 2) {
+				fin = a.BAs[r.Intn(len(a.BAs))].Blobber // one of the allocation's blobbers finalizes
+			}
+			return &Op{K: "finalize", Dt: a.Exp - run.Now + r.Pick64([]int64{0, 1, 100}), Dr: r.Pick64([]int64{0, 10, 1000}), S: fin, A: l}
 		}
 	}
 	g.step = -2
